@@ -58,6 +58,9 @@ func child() {
 	seed := *hlib.FlagSeed
 	e := &engine{o: o, seed: seed, start: time.Now(), classT: map[string]time.Duration{}, verbose: os.Getenv("C18_VERBOSE") != ""}
 
+	if *hlib.FlagReplay != "" {
+		e.filter = replayFilter(*hlib.FlagReplay)
+	}
 	// the pool is generated from a seeded reader (single goroutine); everything concurrent
 	// afterwards uses the real crypto/rand reader again
 	realRand := rand.Reader
@@ -95,8 +98,8 @@ func child() {
 		f()
 		timings[name] = time.Since(t)
 	}
-	// handle / key / registry sections come first: they need handles and registry paths that no
-	// sequential code has touched more than necessary
+	// the registry section runs alone (it registers KMS and monitoring clients); handle and key
+	// targets parse their own, never used twin objects, so their position in the queue is free
 	lanes := 8
 	section("registry", func() { e.registrySection(pool, its) })
 	// everything else is one queue of jobs over eight lanes (most expensive first); the reports
@@ -179,6 +182,9 @@ func (e *engine) primJobs(its []*item) (jobs []job) {
 		if th || it.cost <= 2 {
 			jobs = append(jobs, e.targetJob("full:"+cl+":"+it.token, cl, it.cost, false, it.mkFull(), nil, !th))
 		}
+		if cl == "sig" && strings.HasPrefix(it.pk.Name, "MLDSA") {
+			jobs = append(jobs, e.targetJob("prehash:sig:"+it.token, "prehash", it.cost, false, it.mkPrehash(), nil, false))
+		}
 		// exported constructor called directly: one key per Go key type
 		ty := fmt.Sprintf("%T", it.key)
 		if (!directSeen[ty] || th) && (th || it.cost <= 2) {
@@ -199,4 +205,24 @@ func (e *engine) subtleJobs() (jobs []job) {
 		jobs = append(jobs, e.targetJob("subtle:"+s.class+":"+s.name, s.class, s.cost, s.big, s.mk, s.extra, false))
 	}
 	return
+}
+
+// replayFilter reads the object ids named by the "!Q conc <id> …" lines of a replay file: a replay
+// re-runs all batches of exactly those shared objects.
+func replayFilter(path string) map[string]bool {
+	b, err := os.ReadFile(path)
+	if err != nil {
+		return nil
+	}
+	f := map[string]bool{}
+	for _, l := range strings.Split(string(b), "\n") {
+		w := strings.Fields(strings.TrimPrefix(strings.TrimSpace(l), "# "))
+		if len(w) >= 3 && w[0] == "!Q" && w[1] == "conc" && w[2] != "race-detector" {
+			f[w[2]] = true
+		}
+	}
+	if len(f) == 0 {
+		return nil // a race-only replay: everything is run again
+	}
+	return f
 }
